@@ -14,15 +14,15 @@ DEFAULT_ASSUMPTIONS = [
     'interleavings are sequentially consistent: relaxed atomics return the latest value in the explored interleaving; missing '
     'release/acquire is judged separately by the C++20 happens-before race oracle',
     'code outside the instrumented TU (libstdc++.so, libc) is invisible to the race oracle (can hide, never invent a race)',
-    'compare_exchange_weak never fails spuriously; condition variables do not wake spuriously',
+    'quick tier: compare_exchange_weak never fails spuriously and condition variables do not wake spuriously; the thorough tiers of C02 C07 C08 C11 C12 also explore both as deviations',
     'harness built with g++ 12.2 -O1 -DNDEBUG -D_GLIBCXX_ASSERTIONS against the current /repo/src headers',
 ]
 ASSUMPTIONS = {}
 
 
-def vrt(tu, scenarios, bound=2, unbounded=False, race_oracle=False, workers=16, ignore=None, max_viol=None):
+def vrt(tu, scenarios, bound=2, unbounded=False, race_oracle=False, workers=16, ignore=None, max_viol=None, spurious=False):
     return dict(kind='vrt', tu=tu, scenarios=scenarios, bound=bound, unbounded=unbounded, race_oracle=race_oracle, workers=workers,
-                ignore=ignore or [], max_viol=max_viol)
+                ignore=ignore or [], max_viol=max_viol, spurious=spurious)
 
 
 def seq(tu, args=None, ignore=None):
@@ -39,14 +39,16 @@ def jobs(pid, tier):
         return [vrt('C07', [r'mx2_.*_r1'], unbounded=True, workers=4, ignore=[r'^mutex/fifo']),
                 vrt('C07', [r'mx2_.*_r2'], bound=3, workers=4, ignore=[r'^mutex/fifo']),
                 vrt('C07', [r'mx3_.*'], bound=3, workers=16, ignore=[r'^mutex/fifo']),
-                vrt('C07', [r'mx4_.*'], bound=2, workers=16, ignore=[r'^mutex/fifo'])]
+                vrt('C07', [r'mx4_.*'], bound=2, workers=16, ignore=[r'^mutex/fifo']),
+                vrt('C07', [r'mx2_.*_r1'], bound=2, workers=4, ignore=[r'^mutex/fifo'], spurious=True)]
     if pid == 'C08':
         if q:
             return [vrt('C07', [r'mx2_.*_r1'], bound=2, workers=2),
                     vrt('C07', [r'mx3_f[012]_r[0123]'], bound=2, workers=8)]
         return [vrt('C07', [r'mx2_.*_r1'], unbounded=True, workers=4),
                 vrt('C07', [r'mx3_.*'], bound=3, workers=16),
-                vrt('C07', [r'mx4_.*'], bound=2, workers=16)]
+                vrt('C07', [r'mx4_.*'], bound=2, workers=16),
+                vrt('C07', [r'mx2_.*_r1'], bound=2, workers=4, spurious=True)]
     if pid == 'C01':
         if q:
             return [vrt('C01', [r'once_(int|counted)_[a-z]+-[a-z]+_(none|wait)', r'once_(int|counted|void)_(nop|assign)_.*',
@@ -60,7 +62,8 @@ def jobs(pid, tier):
                     vrt('C02', [r'wake2_.*'], bound=2, workers=2)]
         return [vrt('C02', [r'wake1_.*'], unbounded=True, workers=2),
                 vrt('C02', [r'wake2_.*'], bound=3, workers=4),
-                vrt('C02', [r'wake3_.*'], bound=3, workers=16)]
+                vrt('C02', [r'wake3_.*'], bound=3, workers=16),
+                vrt('C02', [r'wake[12]_.*'], bound=2, workers=4, spurious=True)]
     if pid == 'C03':
         R = dict(race_oracle=True)
         if q:
@@ -107,6 +110,7 @@ def jobs(pid, tier):
         return [vrt('C11', [rf'pool_w[123]_{OKK}_(stop|dtor|selfstop|racestop)', r'pool_w[23]_dependent_.*'], bound=3, workers=2),
                 vrt('C11', [rf'pool_w[12]_{OKK}-{OKK}_(stop|dtor|selfstop|racestop)'], bound=3, workers=8),
                 vrt('C11', [rf'pool_w3_{OKK}-{OKK}_(stop|selfstop)'], bound=1, workers=8),
+                vrt('C11', [rf'pool_w[12]_{OKK}_(stop|dtor|selfstop|racestop)', r'pool_w2_dependent_.*'], bound=2, workers=4, spurious=True),
                 vrt('C11', [rf'pool_w[12]_{LOST}_(stop|dtor|selfstop)', rf'pool_w1_{OKK}-{LOST}_stop'], bound=2, workers=4, max_viol=10000000)]
     if pid == 'C04':
         if q:
@@ -149,7 +153,7 @@ def jobs(pid, tier):
     if pid == 'C12':
         if q:
             return [seq('C12'), vrt('C12', [r'sch_.*'], bound=2, workers=4)]
-        return [seq('C12'), vrt('C12', [r'sch_.*'], bound=3, workers=8)]
+        return [seq('C12'), vrt('C12', [r'sch_.*'], bound=3, workers=8), vrt('C12', [r'sch_.*'], bound=2, workers=8, spurious=True)]
     if pid == 'C16':
         if q:
             return [seq('C16'), vrt('C16', [r'pub1_.*'], bound=2, workers=2),
